@@ -10,7 +10,7 @@ import traceback
 import z3
 
 from .vals import *
-from .types import *
+from .tys import *
 from .contract import REGISTRY, Const
 from .interp import Interp, St, Raise, EngineLimit, NORMAL, stmt_text, Obligation
 from . import contracts_rt as C
